@@ -3,7 +3,7 @@ option attributes exist (ATTR), handler table exhaustive and in the right label 
 from ..core.model import Program
 from ..core.report import CheckContext
 from ..core.resolve import Resolver
-from ..rules import order
+from ..rules import coldef, order
 from .common import run_control
 
 
@@ -15,6 +15,7 @@ def analyse(ctx: CheckContext, p: Program):
     order.check_handler_table(ctx, p, r)
     order.check_division_guards(ctx, p, r, cone)
     order.check_subzone_loops(ctx, p, r)
+    coldef.check_column_definitions(ctx, p, r)
 
 
 def run(ctx: CheckContext):
@@ -25,6 +26,7 @@ def run(ctx: CheckContext):
     ctx.floor("T4", 5)
     ctx.floor("T4-FORM", 6)
     ctx.floor("DIV-GUARD", 2)
+    ctx.floor("COLDEF", 20)
     ctx.assumptions += [
         "decides define-before-use of the target registry, existence of option attributes and exhaustiveness of the zone-type dispatch; "
         "finiteness of numbers, schema validity of the output and temperature envelopes are NOT decided",
@@ -44,5 +46,8 @@ def run(ctx: CheckContext):
     run_control(ctx, "C14/loop-targets-parent", analyse, p.root, m,
                 "                    if zone.config.DO_DIRECT_OPERATION_TARGETING:\n                        compute_direct_integration_targets(z)",
                 "                    if zone.config.DO_DIRECT_OPERATION_TARGETING:\n                        compute_direct_integration_targets(zone)", "LOOPVAR")
+    run_control(ctx, "C14/utility-columns-optional", analyse, p.root, "OpenPinch/analysis/direct_integration_entry.py",
+                "    get_utility_targets(\n        pt, pt_real, hot_utilities, cold_utilities, is_direct_integration=True\n    )",
+                "    if zone_config.DO_BALANCED_CC:\n        get_utility_targets(pt, pt_real, hot_utilities, cold_utilities, is_direct_integration=True)", "COLDEF")
     run_control(ctx, "C14/config-attr-typo", analyse, p.root, "OpenPinch/analysis/direct_integration_entry.py",
                 "do_assisted_ht_calc=zone_config.DO_ASSITED_HT,", "do_assisted_ht_calc=zone_config.DO_ASSISTED_HT,", "ATTR")
